@@ -34,7 +34,7 @@
     Rows are stated in ABSOLUTE time: [appended .. s s' h rest] says the new rows are
     [(t + shift, flow p (h + shift) y0 (t - h))] with [h + shift == reached s]. *)
 From Coq Require Import QArith List Bool NArith.
-From Sim Require Import Integrator Simulator Protocol Views Variants SimExec ViewsExec GenSimFacts ExpectedFacts SimProofs ProtocolProofs SteadyProofs StampProofs ViewsProofs.
+From Sim Require Import Integrator Simulator Protocol Views Variants SimExec ViewsExec GenSimFacts ExpectedFacts SimProofs ProtocolProofs SteadyProofs StampProofs ViewsProofs FailureProofs.
 Import ListNotations.
 Open Scope Q_scope.
 
@@ -500,3 +500,133 @@ Example C04_views_in_force_nonvacuous :
   /\ recorded_k (xvrun pinned_facts ViewRestores view_start view_hist_seeded) = [1; 3; 3].
 Proof. exact view_in_force_nonvacuous. Qed.
 Print Assumptions C04_views_in_force_nonvacuous.
+
+(** * closing pass (seeded change C04-8): failed runs and [clear_results]
+
+    A failed run (IntegrationFailure / NoSteadyState) is recorded in [_errors]; from then on the code makes every
+    simulating call return at once (accepted behaviour: design/C04.md, "deliberate non-demands").  What the property says
+    about "result clearing" after such a run is proved here for ALL states and histories. *)
+
+(** THE INERT PHASE: after a failed run, for ANY history without clear_results -- simulate / time-course / protocol /
+    steady-state calls with legal or illegal arguments, parameter updates, overrides --, the accumulated result, the
+    recorded parameters and the recorded errors stay exactly what they were; in particular no simulating call is refused
+    and none appends anything *)
+Theorem C04_failed_until_cleared :
+  forall (Y P U O : Type) (flow : P -> Q -> Y -> Q -> Y) (solve_ok : P -> Q -> Y -> Q -> bool)
+         (conv : Y -> Y -> bool) (pupd : P -> U -> P) (yovr : Y -> O -> Y) (ops : list (op U O)) (s : sim Y P),
+    has_errors Y P s = true -> Forall (not_clear U O) ops ->
+    s_vars (run Y P U O flow solve_ok conv pupd yovr gen_sim_facts s ops) = s_vars s
+    /\ s_pars (run Y P U O flow solve_ok conv pupd yovr gen_sim_facts s ops) = s_pars s
+    /\ s_errs (run Y P U O flow solve_ok conv pupd yovr gen_sim_facts s ops) = s_errs s
+    /\ index_of Y P (run Y P U O flow solve_ok conv pupd yovr gen_sim_facts s ops) = index_of Y P s
+    /\ has_errors Y P (run Y P U O flow solve_ok conv pupd yovr gen_sim_facts s ops) = true.
+Proof. exact (fun Y P U O flow solve_ok conv pupd yovr => failed_until_cleared Y P U O flow solve_ok conv pupd yovr gen_sim_facts). Qed.
+Print Assumptions C04_failed_until_cleared.
+
+Theorem C04_failed_call_is_noop :
+  forall (Y P U O : Type) (flow : P -> Q -> Y -> Q -> Y) (solve_ok : P -> Q -> Y -> Q -> bool)
+         (conv : Y -> Y -> bool) (pupd : P -> U -> P) (yovr : Y -> O -> Y) (s : sim Y P) (o : op U O),
+    has_errors Y P s = true ->
+    match o with OSim _ _ | OTc _ | OProt _ _ | OProtTc _ _ _ | OSteady => True | _ => False end ->
+    run_op Y P U O flow solve_ok conv pupd yovr gen_sim_facts s o = (s, Done).
+Proof. exact (fun Y P U O flow solve_ok conv pupd yovr => failed_call_is_noop Y P U O flow solve_ok conv pupd yovr gen_sim_facts). Qed.
+Print Assumptions C04_failed_call_is_noop.
+
+(** clear_results in ANY state -- failed or not, whatever the results, the time shift, the integrator: the state IS that
+    of a new simulator on the current start state and parameter values; no error is left on record, no result, no time
+    shift; the invariant of continued simulation holds and the time reached is 0 (so C04_simulate_partial,
+    C04_time_course_partial, C04_steady_on_fresh_integrator, C14_* apply to whatever is run next); get_result() has
+    nothing to hand out yet *)
+Theorem C04_clear_forgets_failure :
+  forall (Y P : Type) (s : sim Y P),
+    clear_results Y P s = sim_new Y P (s_y0 s) (s_mp s)
+    /\ has_errors Y P (clear_results Y P s) = false /\ s_errs (clear_results Y P s) = []
+    /\ Inv2 Y P (clear_results Y P s)
+    /\ s_vars (clear_results Y P s) = None /\ s_pars (clear_results Y P s) = None /\ s_shift (clear_results Y P s) = None
+    /\ index_of Y P (clear_results Y P s) = [] /\ reached Y P (clear_results Y P s) = 0
+    /\ get_result Y P (clear_results Y P s) = None
+    /\ i_t0 (s_int (clear_results Y P s)) = 0 /\ i_y0 (s_int (clear_results Y P s)) = s_y0 s.
+Proof. exact clear_forgets. Qed.
+Print Assumptions C04_clear_forgets_failure.
+
+(** ... hence a history goes on after clear_results exactly as a history of a new simulator -- whatever happened, and
+    whatever FAILED, before (generalises [C04_clear] from the first operation to any position) *)
+Theorem C04_run_after_clear :
+  forall (Y P U O : Type) (flow : P -> Q -> Y -> Q -> Y) (solve_ok : P -> Q -> Y -> Q -> bool)
+         (conv : Y -> Y -> bool) (pupd : P -> U -> P) (yovr : Y -> O -> Y) (before after : list (op U O)) (s : sim Y P),
+    let s1 := run Y P U O flow solve_ok conv pupd yovr gen_sim_facts s before in
+    run Y P U O flow solve_ok conv pupd yovr gen_sim_facts s (before ++ OClear :: after)
+    = run Y P U O flow solve_ok conv pupd yovr gen_sim_facts (sim_new Y P (s_y0 s1) (s_mp s1)) after.
+Proof. exact (fun Y P U O flow solve_ok conv pupd yovr => run_after_clear Y P U O flow solve_ok conv pupd yovr gen_sim_facts). Qed.
+Print Assumptions C04_run_after_clear.
+
+(** the first simulate after clear_results, in ANY state [s] (e.g. one with a failure on record): refused exactly when
+    t_end <= 0; otherwise -- the solver succeeding -- the result is ONE segment on the whole grid 0 = h < ... < t_end
+    (steps + 1 points), its rows the solution from the simulator's start state at absolute time 0 under the parameter
+    values in force, recorded with exactly those values, and no error on record *)
+Theorem C04_simulate_after_clear :
+  forall (Y P : Type) (flow : P -> Q -> Y -> Q -> Y) (solve_ok : P -> Q -> Y -> Q -> bool)
+         (s : sim Y P) (t_end : Q) (steps : option nat) (m : nat),
+    n_points steps = S (S m) ->
+    (snd (simulate Y P flow solve_ok gen_sim_facts (clear_results Y P s) t_end steps) = RaisedValue <-> t_end <= 0)
+    /\ (snd (simulate Y P flow solve_ok gen_sim_facts (clear_results Y P s) t_end steps) <> RaisedValue ->
+        snd (simulate Y P flow solve_ok gen_sim_facts (clear_results Y P s) t_end steps) = Done)
+    /\ (forall s', simulate Y P flow solve_ok gen_sim_facts (clear_results Y P s) t_end steps = (s', Done) ->
+          has_errors Y P s' = false ->
+          exists h rest,
+            h == 0 /\ incr (h :: rest) /\ length rest = S m /\ lastq rest h == t_end
+            /\ index_of Y P s' = h :: rest
+            /\ s_vars s' = Some [map (fun t => (t, flow (s_mp s) h (s_y0 s) (t - h))) (h :: rest)]
+            /\ s_pars s' = Some [s_mp s]
+            /\ s_errs s' = [] /\ s_mp s' = s_mp s /\ s_y0 s' = s_y0 s /\ reached Y P s' == t_end).
+Proof. exact (fun Y P flow solve_ok => simulate_after_clear Y P flow solve_ok gen_sim_facts (good_of_pinned _ C04_facts_pinned)). Qed.
+Print Assumptions C04_simulate_after_clear.
+
+(** regression theorem for seeded change C04-8 (Variants.v: [clear_results] built from a helper that leaves [_errors]
+    alone): with that shape a failed simulator is inert FOR EVER -- after ANY history, clear_results included, the
+    first failure is still on record, get_result() is that error, no segment was ever added (the results are the old
+    ones, or gone), and every further simulating call, legal or illegal, returns at once *)
+Theorem C04_clear_keeping_failure_inert_forever :
+  forall (Y P U O : Type) (flow : P -> Q -> Y -> Q -> Y) (solve_ok : P -> Q -> Y -> Q -> bool)
+         (conv : Y -> Y -> bool) (pupd : P -> U -> P) (yovr : Y -> O -> Y) (ops : list (op U O)) (s : sim Y P),
+    has_errors Y P s = true ->
+    s_errs (run_ck Y P U O flow solve_ok conv pupd yovr gen_sim_facts s ops) = s_errs s
+    /\ has_errors Y P (run_ck Y P U O flow solve_ok conv pupd yovr gen_sim_facts s ops) = true
+    /\ get_result Y P (run_ck Y P U O flow solve_ok conv pupd yovr gen_sim_facts s ops) = None
+    /\ (s_vars (run_ck Y P U O flow solve_ok conv pupd yovr gen_sim_facts s ops) = s_vars s
+        \/ s_vars (run_ck Y P U O flow solve_ok conv pupd yovr gen_sim_facts s ops) = None)
+    /\ (forall o, match o with OSim _ _ | OTc _ | OProt _ _ | OProtTc _ _ _ | OSteady => True | _ => False end ->
+          run_op_ck Y P U O flow solve_ok conv pupd yovr gen_sim_facts
+            (run_ck Y P U O flow solve_ok conv pupd yovr gen_sim_facts s ops) o
+          = (run_ck Y P U O flow solve_ok conv pupd yovr gen_sim_facts s ops, Done)).
+Proof. exact (fun Y P U O flow solve_ok conv pupd yovr => keeps_errors_inert_forever Y P U O flow solve_ok conv pupd yovr gen_sim_facts). Qed.
+Print Assumptions C04_clear_keeping_failure_inert_forever.
+
+(** ... and the history of the seeded demo on x' = k*y, y' = 1 (a steady-state search that cannot succeed):
+    [steady ; clear ; k := 2 ; simulate(3, 1) ; k := 1/2 ; time course [4, 5, 7] ; simulate(7)].
+    (outcome, get_result() error) per operation -- 0/1 = returned/ValueError, 0/1/2 = result / nothing yet or
+    IntegrationFailure / NoSteadyState.  Pinned shape: axis 0, 3, 4, 5, 7, segments recorded with k = 2 and 1/2, the
+    illegal simulate(7) refused.  Seeded shape: NoSteadyState throughout, no axis, simulate(7) not refused *)
+Theorem C04_clear_keeps_failure_refuted :
+  codes (xtrace pinned_facts failure_start failure_hist) = [(0, 2); (0, 1); (0, 1); (0, 0); (0, 0); (0, 0); (1, 0)]%nat
+  /\ xindex (xrun pinned_facts failure_start failure_hist) = [0; 3; 4; 5; 7]
+  /\ recorded_k (xrun pinned_facts failure_start failure_hist) = [2; 1 # 2]
+  /\ codes (xtrace_ck pinned_facts failure_start failure_hist) = [(0, 2); (0, 2); (0, 2); (0, 2); (0, 2); (0, 2); (0, 2)]%nat
+  /\ xindex (xrun_ck pinned_facts failure_start failure_hist) = []
+  /\ has_errors _ _ (xrun_ck pinned_facts failure_start failure_hist) = true.
+Proof. exact clear_keeps_failure_refuted. Qed.
+Print Assumptions C04_clear_keeps_failure_refuted.
+
+(** non-vacuity: the state after the failed search has an error on record; a legal call, an illegal time course, an
+    override and an illegal end on it all return with NoSteadyState and change nothing (hypotheses of
+    [C04_failed_until_cleared]); the segment simulated after clear_results is the one [C04_simulate_after_clear] names *)
+Example C04_failure_nonvacuous :
+  has_errors _ _ (xrun pinned_facts failure_start [OSteady]) = true
+  /\ Forall (not_clear (list (nat * Q)) (list (nat * Q))) [OSim 3 (Some 1%nat); OTc [0; 1]; OUpdVar [(0%nat, 5)]; OSim 0 None]
+  /\ codes (xtrace pinned_facts (xrun pinned_facts failure_start [OSteady]) [OSim 3 (Some 1%nat); OTc [0; 1]; OUpdVar [(0%nat, 5)]; OSim 0 None])
+     = [(0, 2); (0, 2); (0, 2); (0, 2)]%nat
+  /\ (match s_vars (xrun pinned_facts failure_start [OSteady; OClear; OSim 3 (Some 3%nat)]) with
+      | Some l => map (map (fun r => (Qred (fst r), map Qred (snd r)))) l | None => [] end)
+     = [[(0, [0; 1]); (1, [3 # 2; 2]); (2, [4; 3]); (3, [15 # 2; 4])]].
+Proof. exact failure_nonvacuous. Qed.
+Print Assumptions C04_failure_nonvacuous.
